@@ -153,13 +153,15 @@ class CharacterClass(MutableSet[int]):
 
     def __isub__(self, other: AbstractSet[Any]) -> 'CharacterClass':
         if isinstance(other, CharacterClass):
-            if self.negative:
-                if other.negative:
+            if other.negative:
+                # Only the members that are in the negative part of the other class
+                # can be kept (e.g. [\Da-[\D]] is empty, [\D-[\Sa]] is [\s]).
+                self.positive &= other.negative
+                if self.negative:
                     self.positive |= (other.negative - self.negative)
                     self.negative.clear()
+            elif self.negative:
                 self.negative |= other.positive
-            elif other.negative:
-                self.positive &= other.negative
             self.positive -= other.positive
             return self
         return NotImplemented
